@@ -357,6 +357,8 @@ def gen_net(rng, spec):
     shape = rng.choice(['unary', 'unary', 'dups', 'dups', 'random', 'chain', 'diamond', 'consts', 'nary', 'wide'])
     net = netgen.rand_net(rng, shape=shape, max_in=spec.get('max_in', 5), min_in=0 if rng.random() < 0.05 else 1, max_g=spec.get('max_g', 12), max_arity=4,
                           label_style=rng.choice(['plain', 'plain', 'digits', 'odd', 'derived']))
+    if not net.gates:
+        return shape, net   # the empty circuit: nothing to decorate
     r = rng.random()
     if r < 0.35:
         net = _pure_unary(net, rng, NEG)
@@ -392,7 +394,7 @@ def _pure_unary(net, rng, family):
     # chains of unary gates feeding symmetric and asymmetric gates
     labels = list(g2)
     k = 0
-    for _ in range(rng.randint(1, 4)):
+    for _ in range(rng.randint(1, 4) if labels else 0):
         src = rng.choice(labels)
         for d in range(rng.randint(1, 4)):
             nt = rng.choice(fam)
